@@ -30,6 +30,11 @@ TAIL = "tail words"
 POSITIONS = {
     "container": ("$ pub struct @ { pub f: i32 }", "container"),
     "container_enum": ("$ pub enum @ { A, B { x: i32 } }", "container"),
+    # documented items that also carry serde attributes (the docs and the serde lists are parsed side by side)
+    "container_serde": ('$ #[derive(Serialize)] #[serde(rename_all = "camelCase")] pub struct @ { pub f_x: i32 }', "container"),
+    "container_enum_serde": ('$ #[derive(Serialize)] #[serde(tag = "t")] pub enum @ { A, B { x: i32 } }', "container"),
+    "field_serde": ('#[derive(Serialize)] pub struct @ { $ #[serde(rename = "g")] pub f: i32, pub h: String }', "g"),
+    "variant_field_serde": ('#[derive(Serialize)] #[serde(rename_all_fields = "camelCase")] pub enum @ { A { $ #[serde(default)] x_y: i32 }, B }', "xY"),
     "named_field": ("pub struct @ { $ pub f: i32, pub g: String }", "f"),
     "named_field_renamed": ('#[ts(rename_all = "kebab-case")] pub struct @ { $ pub foo_bar: i32, pub g: String }', "foo-bar"),
     "tuple_field": ("pub struct @($ pub i32, pub String);", None),
@@ -189,7 +194,7 @@ def run(tier):
            "samples": [{"case": m[0], "text": m[2][:300]} for m in meta[:: max(1, len(meta) // 6)][:6]],
            "cases": len(recs), "merged_file_cases": sum(1 for m in meta if m[0]["merged"]),
            "model_says_not_contained": model_uncontained, "by_position": dict(Counter(m[0]["position"] for m in meta)), "exhaustive": tier != "quick",
-           "rule": "doc texts of <= %d lines over 12 line tokens x 4 syntaxes (/// lines, #[doc] attributes, one block, block + line) x 10 positions (quick: all single lines, two-line texts containing an empty line / `*/` / `export type`); + 80 merged-file cases (documented type between two neighbours in a shared file)" % (2 if tier == "quick" else 3)}
+           "rule": "doc texts of <= %d lines over 12 line tokens x 4 syntaxes (/// lines, #[doc] attributes, one block, block + line) x 14 positions (quick: all single lines, two-line texts containing an empty line / `*/` / `export type`); + 80 merged-file cases (documented type between two neighbours in a shared file)" % (2 if tier == "quick" else 3)}
     vlib.write_evidence(PROP, tier, "model_checking", cov,
                         ["doc comments are given to the derive as #[doc = ..] attributes, which is what rustc turns /// and /** */ into",
                          "containment of the text is checked modulo backslashes (an escaped `*/` still counts as the text)"],
